@@ -86,6 +86,46 @@ def rule_rad50(ck):
         if len(p) != 1 or p[0].kind != "return" or p[0].value != exp:
             ck.violation(where, f".rad50 of {n} generic characters gives {p[0].value!r}, expected {exp!r}", construct=f"rad50 packing", expected=repr(exp), found=repr(p[0].value))
             break
+    # operands made of several pieces: /ab/<5>/cd/ is ONE character sequence a b 5 c d, padded once at its end
+    for shape in (("q2", "n", "q2"), ("q1", "q1"), ("n", "n", "n", "n"), ("q1", "n"), ("q2", "q2", "q2")):
+        I = eager_interp(repo, opaque_get_as_int=False)
+        per_chunk = {}
+
+        def gas(I_, fn_, a, k, per_chunk=per_chunk):
+            return per_chunk[id(a[3])]
+        I.summaries["metacommand_impl::get_as_str"] = gas
+        codes = []
+
+        def thunk3(shape=shape, per_chunk=per_chunk, codes=codes):
+            del codes[:]
+            per_chunk.clear()
+            sh = Shapes(I)
+            chunks = []
+            for j, kind in enumerate(shape):
+                if kind == "n":
+                    chunks.append(I.instantiate(I.module_get("types", "AngleBracketedChar"), [None, None, sh.number(str(j + 1), j + 1)], {}))
+                    codes.append(j + 1)
+                else:
+                    cs = [sym.var(f"c{j}_{i}", "str") for i in range(int(kind[1]))]
+                    q = I.instantiate(I.module_get("types", "QuotedString"), [None, None, '"', "zz"], {})
+                    per_chunk[id(q)] = cs
+                    chunks.append(q)
+                    codes.extend(sym.op("index", T, sym.op("upper", c)) for c in cs)
+            sc = I.instantiate(I.module_get("types", "StringConcatenation"), [None, None, chunks], {})
+            return I.call(metacommand_fn(I, ".rad50"), [STATE, sc], {})
+        p = I.explore(thunk3)
+        cd = list(codes)
+        while len(cd) % 3:
+            cd.append(0)
+        exp = b""
+        for i in range(0, len(cd), 3):
+            a, b, c = cd[i:i + 3]
+            exp = sym.cat(exp, sym.pack("<H", sym.add(sym.add(sym.mul(a, 1600), sym.mul(b, 40)), c)))
+        ck.instance(("rad50-pieces", shape), {"pieces": list(shape), "result": repr(p[0].value)[:160]}, fn=where)
+        if len(p) != 1 or p[0].kind != "return" or p[0].value != exp:
+            ck.violation(where, f".rad50 of an operand made of the pieces {list(shape)} (q<k>: quoted string of k characters, n: <number>) gives {p[0].value!r}, expected {exp!r}: the pieces form one "
+                                "character sequence, grouped in threes across piece boundaries and padded once at the end", construct="rad50 multi-piece operand", expected=repr(exp), found=repr(p[0].value))
+            break
     # the partial operation TABLE.index(...) must be guarded by a reporting ValueError handler
     fn = repo.func(where)
     sites = [c for c in guards.calls_in(fn) if isinstance(c.func, ast.Attribute) and c.func.attr == "index"]
